@@ -156,6 +156,22 @@ func runC10(outDir string, seed int64, tier string) {
 				c = gc(":-", h, p.conj(1, 99, false))
 			}
 			bind := gc("=", gv(r.intn(4)), p.term(1))
+			if r.coin(0.3) {
+				// a control construct of the body reaches assert through a bound variable
+				cond := gc("member", gv(0), p.smallList())
+				bv := gv(3)
+				switch r.intn(3) {
+				case 0:
+					bind = gc("=", bv, gc("->", cond, gc("=", gv(1), ga("yes"))))
+					c = gc(":-", h, gc(";", bv, gc("=", gv(1), ga("none"))))
+				case 1:
+					bind = gc("=", bv, gc(",", cond, gc("=", gv(1), ga("a"))))
+					c = gc(":-", h, gc(";", bv, gc("=", gv(1), ga("b"))))
+				default:
+					bind = gc("=", bv, cond)
+					c = gc(":-", h, gc(",", bv, gc("=", gv(1), ga("c"))))
+				}
+			}
 			items = append(items, bind, gc([]string{"assertz", "asserta"}[r.intn(2)], c))
 		}
 		// observe through clause/2, retract/1 and calls
